@@ -130,7 +130,7 @@ def _from_parts_contracts(phase, mod, clsname, parts_attr, kind, shape, exe_meth
     _INIT = 'holds the parts; its svh-validator wraps the validator of the parts'
     M.contract(q + '.__init__',
                params={'self': Inst(cls), ('parts' if phase == 'assert_' else 'instruction_setup'): PARTS},
-               ghosts=g,
+               ghosts=g, inline=True,
                ensures={
                    _INIT: (lambda self, parts, parts_attr: built_from(self, parts, parts_attr))
                    if phase == 'assert_' else
@@ -203,3 +203,145 @@ def _from_parts_contracts(phase, mod, clsname, parts_attr, kind, shape, exe_meth
 
 for _phase, _spec in FROM_PARTS.items():
     _from_parts_contracts(_phase, *_spec)
+
+
+# ====================================================================================== 1b: the main step of an embryo
+# MainStepExecutorFromMainStepExecutorEmbryo: the executor of the parts that are made of an InstructionEmbryo.
+
+class EmbryoMainI(Interface):
+    """the `main` of a concrete instruction embryo (arbitrary code of ~40 instructions): returns its custom
+    result, raises HardErrorException (documented) or anything else"""
+    methods = {'main': Method(returns=Opt(Any_), may_raise=c01.RAISES, event='embryo-main')}
+
+
+class _AnyPhaseAgnosticEmbryo(embryo_mod.PhaseAgnosticInstructionEmbryo):
+    """a concrete phase-agnostic embryo: `main` is opaque; everything else is the real base class"""
+
+    def main(self, environment, settings, os_services):
+        return self._main.main(environment, settings, os_services)
+
+
+class _AnySetupPhaseAwareEmbryo(embryo_mod.SetupPhaseAwareInstructionEmbryo):
+    def main(self, environment, settings, setup_phase_settings, os_services):
+        return self._main.main(environment, settings, setup_phase_settings, os_services)
+
+
+EMBRYO = Union(Inst(_AnyPhaseAgnosticEmbryo, _main=Iface(EmbryoMainI)),
+               Inst(_AnySetupPhaseAwareEmbryo, _main=Iface(EmbryoMainI)))
+
+TRANSLATOR = Union(Inst(ipu.MainStepResultTranslatorForTextRendererAsHardError),
+                   Inst(ipu.MainStepResultTranslatorForUnconditionalSuccess))
+# (MainStepResultTranslatorForErrorMessageStringResultAsHardError differs from ...ForTextRendererAsHardError only
+#  in formatting the message string)
+
+EMBRYO_EXECUTOR = Inst(ipu.MainStepExecutorFromMainStepExecutorEmbryo, result_translator=TRANSLATOR,
+                       main_step=EMBRYO)
+
+
+def _embryo_main_args(self, environment, settings, os_services, setup_phase_settings):
+    if isinstance(self.main_step, _AnySetupPhaseAwareEmbryo):
+        return (environment, settings, setup_phase_settings, os_services)
+    return (environment, settings, os_services)
+
+
+def _translated(self, kind, result, main_result):
+    """the documented translation of the custom result of main: None (or anything, for the unconditional
+    translator) is success, a message is a HARD_ERROR with that message"""
+    if main_result is None or isinstance(self.result_translator, ipu.MainStepResultTranslatorForUnconditionalSuccess):
+        return kind(result) is None
+    return kind(result) == 'HARD_ERROR' and result[-1] is main_result
+
+
+for _m, _kind, _shape, _extra in (('apply_as_non_assertion', sh_kind, SH, dict(setup_phase_settings=Any_)),
+                                  ('apply_as_assertion', pfh_kind, PFH, {})):
+    M.contract('%s:MainStepExecutorFromMainStepExecutorEmbryo.%s' % (P_IPU, _m),
+               params=dict(self=EMBRYO_EXECUTOR, environment=Any_, settings=Any_, os_services=Any_, **_extra),
+               ghosts=dict(kind=Const(_kind), **({} if _extra else dict(setup_phase_settings=Const(None)))),
+               returns=_shape,
+               ensures={
+                   'the main of the embryo, once, with the arguments given (the setup settings iff it is setup-phase '
+                   'aware); nothing else': lambda self, environment, settings, os_services, setup_phase_settings, trace:
+                   steps(trace) == [('embryo-main', self.main_step._main,
+                                     _embryo_main_args(self, environment, settings, os_services, setup_phase_settings))],
+                   'a HardErrorException of main is a HARD_ERROR with its message; else the translation of its result':
+                       lambda self, kind, result, trace:
+                       _translated(self, kind, result, outcome_event(trace, 'embryo-main')[1])
+                       if outcome_event(trace, 'embryo-main')[0] == 'returned' else
+                       (kind(result) == 'HARD_ERROR' and result[-1] is outcome_event(trace, 'embryo-main')[1].error),
+               },
+               raises={ArbitraryException: {'ensures': lambda exc, trace:
+               outcome_event(trace, 'embryo-main') == ('raised', exc)}},
+               raises_only=())      # (no HardErrorException escapes)
+
+
+class EmbryoI(Interface):
+    """an InstructionEmbryo as the construction of the parts sees it"""
+    target_class = embryo_mod.InstructionEmbryo
+    attrs = {'validator': Iface(ValidatorI), 'symbol_usages': FixedList(Any_, Any_)}
+
+
+M.contract(P_IPU + ':instruction_parts_from_embryo',
+           params=dict(instruction=Iface(EmbryoI), result_translator=TRANSLATOR),
+           returns=Inst(iparts.InstructionParts, _tuple=[Any_, Any_, Any_]), inline=True,
+           ensures={
+               'the validator of the parts is THE validator of the embryo': lambda instruction, result:
+               result.validator is instruction.validator,
+               'the executor runs the main of that embryo, translated by the translator given':
+                   lambda instruction, result_translator, result:
+                   type(result.executor) is ipu.MainStepExecutorFromMainStepExecutorEmbryo
+                   and result.executor.main_step is instruction
+                   and result.executor.result_translator is result_translator,
+               'all symbol usages of the embryo': lambda instruction, result:
+               result.symbol_usages == tuple(instruction.symbol_usages),
+               'runs nothing': lambda trace: trace == [],
+           }, raises_only=())
+
+
+# ----- the parsers: what is parsed is what is validated and run
+
+def _mk_arbitrary(interp, o):
+    return ArbitraryException()
+
+
+class EmbryoParserI(Interface):
+    methods = {'parse': Method(returns=Iface(EmbryoI), may_raise=(_mk_arbitrary,), event='parse-embryo')}
+
+
+M.contract(P_IPU + ':PartsParserFromEmbryoParser.parse',
+           params=dict(self=Inst(ipu.PartsParserFromEmbryoParser, embryo_parser=Iface(EmbryoParserI),
+                                 main_step_result_translator=TRANSLATOR), fs_location_info=Any_, source=Any_),
+           returns=Inst(iparts.InstructionParts, _tuple=[Any_, Any_, Any_]), inline=True,
+           ensures={
+               'the parts of the embryo that the embryo parser made of the source': lambda self, result, trace:
+               result.validator is outcome_event(trace, 'parse-embryo')[1].validator
+               and result.executor.main_step is outcome_event(trace, 'parse-embryo')[1]
+               and result.executor.result_translator is self.main_step_result_translator,
+               'one parse, of the source given; nothing is validated or run':
+                   lambda self, fs_location_info, source, trace:
+                   [e for e in trace if not e[0].endswith(':returned')]
+                   == [('parse-embryo', self.embryo_parser, (fs_location_info, source))],
+           },
+           raises={ArbitraryException: {}}, raises_only=())
+
+
+class PartsParserI(Interface):
+    target_class = iparts.InstructionPartsParser
+    methods = {'parse': Method(returns=PARTS, may_raise=(_mk_arbitrary,), event='parse-parts')}
+
+
+for _phase, (_mod, _clsname, _parts_attr, _k, _s, _x) in FROM_PARTS.items():
+    M.contract('%s:Parser.parse' % (P_FP % _phase),
+               params=dict(self=Inst(_mod.Parser, instruction_parts_parser=Iface(PartsParserI)), fs_location_info=Any_,
+                           source=Any_),
+               ghosts=dict(cls=Const(getattr(_mod, _clsname)), parts_attr=Const(_parts_attr)),
+               ensures={
+                   'the instruction of the phase, made of the parts that the parts parser made of the source':
+                       lambda result, cls, parts_attr, trace:
+                       type(result) is cls and getattr(result, parts_attr) is outcome_event(trace, 'parse-parts')[1]
+                       and result._validator.validator is outcome_event(trace, 'parse-parts')[1].validator,
+                   'one parse, of the source given; nothing is validated or run':
+                       lambda self, fs_location_info, source, trace:
+                       [e for e in trace if not e[0].endswith(':returned')]
+                       == [('parse-parts', self.instruction_parts_parser, (fs_location_info, source))],
+               },
+               raises={ArbitraryException: {}}, raises_only=())
